@@ -786,6 +786,10 @@ func (e *Exec) instr(st *State, fr *Frame, ins ssa.Instruction) {
 	case *ssa.BinOp:
 		fr.env[x] = e.binop(st, fr, x.Op, e.val(fr, x.X), e.val(fr, x.Y), x.X.Type(), x.Y.Type(), x.Pos())
 	case *ssa.Store:
+		if _, ok := e.val(fr, x.Addr).(*UnsafeV); ok {
+			e.unsafeStore(st, fr, x.Pos())
+			return
+		}
 		p := e.val(fr, x.Addr).(*PtrV)
 		if sv, ok := e.val(fr, x.Val).(*SliceV); ok {
 			if _, _, emb := embOf(sv.Arr); emb {
@@ -876,6 +880,12 @@ func (e *Exec) unop(st *State, fr *Frame, x *ssa.UnOp) Value {
 	v := e.val(fr, x.X)
 	switch x.Op {
 	case token.MUL: // load
+		if _, ok := v.(*UnsafeV); ok { // a load through an unsafe pointer: an arbitrary value of the type
+			if len(components(x.Type())) != 1 {
+				panic(unsupported("load of a non-scalar through an unsafe pointer"))
+			}
+			return freshValue("unsafe.load", x.Type())
+		}
 		p := v.(*PtrV)
 		r := e.load(st, fr, p, x.Pos())
 		e.sharedAccess(st, fr, p, x.Pos())
@@ -1071,11 +1081,28 @@ func (e *Exec) convert(st *State, fr *Frame, v Value, from, to types.Type, pos t
 		}
 		return v
 	}
-	if _, ok := fu.(*types.Pointer); ok { // unsafe conversions
+	// unsafe conversions: the address is abstracted away (an arbitrary number, an opaque pointer)
+	isUP := func(t types.Type) bool { b, ok := t.(*types.Basic); return ok && b.Kind() == types.UnsafePointer }
+	if _, ok := fu.(*types.Pointer); ok {
+		if isUP(tu) {
+			e.note("unsafe: a pointer is converted to unsafe.Pointer (its address is abstracted to an arbitrary number) in " + e.curFn)
+			return &UnsafeV{}
+		}
 		panic(unsupported("pointer conversion"))
 	}
 	if _, ok := tu.(*types.Pointer); ok {
+		if _, isU := v.(*UnsafeV); isU && isUP(fu) {
+			return v
+		}
 		panic(unsupported("pointer conversion"))
+	}
+	if isUP(fu) && isInteger(to) {
+		if _, isU := v.(*UnsafeV); isU {
+			return Fresh("unsafe.addr", scalarSort(to))
+		}
+	}
+	if isUP(tu) && isInteger(from) {
+		return &UnsafeV{}
 	}
 	t := v.(*Term)
 	switch {
@@ -1786,4 +1813,26 @@ func infeasible(ts []*Term) bool {
 		}
 	}
 	return false
+}
+
+// unsafeStore: a store through an unsafe pointer. Accepted only in a function whose contract file names the slice the
+// stores land in (`unsafe-abstract <fn> <param>`): every element of that slice (as passed in) becomes arbitrary. That
+// the stores stay inside the slice is NOT checked - it is listed as an assumption in the evidence.
+func (e *Exec) unsafeStore(st *State, fr *Frame, pos token.Pos) {
+	sp := e.specs.ForFn(fr.fn)
+	if sp == nil || sp.UnsafeAbstract == "" {
+		panic(unsupported("store through an unsafe pointer"))
+	}
+	b, ok := fr.params[sp.UnsafeAbstract].(*SliceV)
+	if !ok {
+		panic(unsupported("unsafe-abstract names no slice parameter: " + sp.UnsafeAbstract))
+	}
+	e.note("assumed: stores through unsafe pointers in " + sp.Target + " stay inside the elements of its parameter " + sp.UnsafeAbstract + " (their effect is abstracted: those elements become arbitrary)")
+	cs := components(b.Elem)
+	if len(cs) != 1 {
+		panic(unsupported("unsafe-abstract on a slice of non-scalars"))
+	}
+	e.frameCheck(st, fr, Loc{Key: elemKey(b.Elem), Idx: []*Term{b.Arr}}, pos)
+	old := st.arrayOf(b.Elem, cs[0], b.Arr)
+	st.setArrayOf(b.Elem, cs[0], b.Arr, ArrayCopy(old, b.Off, Fresh("unsafe.stored", old.Sort), b.Off, b.Len))
 }
